@@ -35,6 +35,10 @@ pub fn resolve_assert(
         report.error_span(
             "assertion failed",
             ast_assert.condition_expr.span());
+
+        // Keep going, so that every failed assertion gets reported,
+        // but don't let this final pass count as resolved
+        return Ok(asm::ResolutionState::Unresolved);
     }
     
     Ok(asm::ResolutionState::Resolved)
